@@ -156,6 +156,13 @@ func mkEvalCase(sp *EvalSpec) evalOutcome {
 					}
 					plain[n] = v
 				}
+				if rr := NewRand(hashStr(src) ^ uint64(len(plain))); ok && rr.Bool() {
+					// the same values as other Go types the library documents as accepted (int, int32, int8, uint8, []int,
+					// []int32): bindings are normalised when the context is built, so nothing may change
+					for _, n := range rc.VarNames {
+						plain[n] = respellGoType(rr, plain[n])
+					}
+				}
 				if ok {
 					var lv eval.Value
 					var lerr error
@@ -323,6 +330,14 @@ func genC01(c *RunCtx) []*Batch {
 	}
 	for _, t := range boundaryTrees() {
 		addEval(c, b, &EvalSpec{Tree: t, RC: &RunCfg{Opts: optSubset(0, false)}, Bind: randBinding(r), DoEval: true, Tags: []string{"boundary-depth"}})
+	}
+	// list-valued variables: membership, intersection and the list itself as a result (the library-context comparison
+	// of every case binds them as []int64, []int or []int32)
+	for k := 0; k < c.N(40, 1500); k++ {
+		probe := []*GT{gconst(int64(0)), gconst(int64(1)), gvar("i0"), gconst(int64(4))}[r.Intn(4)]
+		t := []*GT{gop("in", probe, gvar("li0")), gop("overlap", gvar("li0"), gconst([]int64{0, 7, 9})), gop("overlap", gconst([]int64{0}), gvar("li0")),
+			gif(gop("in", probe, gvar("li0")), gvar("li0"), gconst([]int64{1})), gop("c_first", gvar("li0"), probe)}[r.Intn(5)]
+		addEval(c, b, &EvalSpec{Tree: t, RC: &RunCfg{Opts: optSubset(0, false)}, Bind: randBinding(r), DoEval: true, Tags: []string{"list-variables"}})
 	}
 	return []*Batch{b}
 }
@@ -733,7 +748,25 @@ func libraryCtxCase(c *RunCtx, r *Rand) {
 	if undefined {
 		conf.CompileOptions[eval.AllowUndefinedVariable] = true
 	}
-	ctx := eval.NewCtxFromVars(conf, vals)
+	if r.Intn(3) == 0 {
+		conf.VariableKeyMap["far"] = 300 // a key beyond the key-indexed fetcher's range: the name-indexed fetcher is chosen
+	}
+	// registered variables the caller does not supply: unavailable under the name-indexed fetcher, nil under the
+	// key-indexed one (whichever NewCtxFromVars picks)
+	supplied := map[string]interface{}{}
+	for n, v := range vals {
+		supplied[n] = v
+	}
+	var unsupplied []string
+	if r.Intn(3) == 0 {
+		for _, n := range []string{pick(r, boolVars), pick(r, intVars)} {
+			if _, ok := supplied[n]; ok {
+				delete(supplied, n)
+				unsupplied = append(unsupplied, n)
+			}
+		}
+	}
+	ctx := eval.NewCtxFromVars(conf, supplied)
 	late := []string{"late0", "late1", "late2"}[:1+r.Intn(3)]
 	if !undefined {
 		for _, n := range late {
@@ -771,6 +804,14 @@ func libraryCtxCase(c *RunCtx, r *Rand) {
 	for _, n := range late {
 		ref.Vals[n], ref.Avail[n] = true, false
 	}
+	_, nameIndexed := ctx.VariableFetcher.(eval.MapVarFetcher)
+	for _, n := range unsupplied {
+		if nameIndexed {
+			ref.Avail[n] = false
+		} else {
+			ref.Vals[n] = nil
+		}
+	}
 	run := func(cx *eval.Ctx) (res string) {
 		guarded(map[string]interface{}{"call": "TryEval (library context)", "source": src}, func() {
 			defer func() {
@@ -790,7 +831,7 @@ func libraryCtxCase(c *RunCtx, r *Rand) {
 	got, want := run(ctx), run(&eval.Ctx{VariableFetcher: ref})
 	if got != want {
 		c.Direct = append(c.Direct, DirectViolation{What: "TryEval with the library's own context (variables registered after the context was built are unavailable to it) differs from TryEval with a truthful fetcher in which exactly those variables are unavailable",
-			Sig: "library-ctx", Sample: map[string]interface{}{"source": src, "values": fmt.Sprint(vals), "registered_after_context": late, "allow_undefined": undefined,
+			Sig: "library-ctx", Sample: map[string]interface{}{"source": src, "values": fmt.Sprint(vals), "registered_after_context": late, "registered_but_not_supplied": unsupplied, "allow_undefined": undefined,
 				"fetcher": fmt.Sprintf("%T", ctx.VariableFetcher), "library_context": got, "truthful_fetcher": want}})
 	}
 }
@@ -927,4 +968,50 @@ func reentrantTryCase(c *RunCtx, r *Rand) {
 				Sig: "reentrant-" + what, Sample: map[string]interface{}{"source": src, "chain_leaf_to_root": fmt.Sprintf("%+v", chain), "u_unavailable_in_leaf": uMissing, "got": got, "want": wantS}})
 		}
 	}
+}
+
+// respellGoType: the same number / list of numbers as another Go type that unifies to the canonical one
+func respellGoType(r *Rand, v interface{}) interface{} {
+	switch x := v.(type) {
+	case int64:
+		switch r.Intn(6) {
+		case 0:
+			return int(x)
+		case 1:
+			if x >= -2147483648 && x <= 2147483647 {
+				return int32(x)
+			}
+		case 2:
+			if x >= -128 && x <= 127 {
+				return int8(x)
+			}
+		case 3:
+			if x >= 0 && x <= 255 {
+				return uint8(x)
+			}
+		case 4:
+			if x >= 0 {
+				return uint64(x)
+			}
+		}
+	case []int64:
+		switch r.Intn(2) {
+		case 0:
+			l := make([]int, len(x))
+			for i, e := range x {
+				l[i] = int(e)
+			}
+			return l
+		case 1:
+			l := make([]int32, len(x))
+			for i, e := range x {
+				if e < -2147483648 || e > 2147483647 {
+					return v
+				}
+				l[i] = int32(e)
+			}
+			return l
+		}
+	}
+	return v
 }
